@@ -175,6 +175,8 @@ class Target:
         q = [(nm, getattr(obj, nm)) for nm in self._names(obj)]
         if self._calls:
             q += self._calls(obj)
+        from props import netcommon
+        q += netcommon.arg_calls(obj, already={t[0] for t in q})
         return sorted(q, key=lambda t: t[0])
 
 
